@@ -101,15 +101,20 @@ FAMILIES = {
     "invalid-nested-blocks": lambda n: "".join("    " * i + "if a:\n" for i in range(n)) + "    " * n + "x = = 1\n",
     "invalid-nested-calls": lambda n: "x = " + "f(" * n + "1 2" + ")" * n + "\n",
     "invalid-dict-literal": lambda n: "x = {" + ", ".join(f"{i}: {i}" for i in range(n)) + " 3}\n",
+    "invalid-subproc-mismatch": lambda n: "x = " + "$(echo " * n + "$(echo hi]" + ")" * n + "\n",
+    "invalid-subproc-mismatch-mixed": lambda n: "x = " + "".join(("$(a ", "![b ", "!(c ", "$[d ")[i % 4] for i in range(n)) + "$(e }" + "".join((")", "]", ")", "]")[i % 4] for i in reversed(range(n))) + "\n",
+    "invalid-subproc-unclosed": lambda n: "x = " + "$(echo " * n + "hi\n",
     "invalid-subproc": lambda n: "x = " + "$(echo " * n + "hi" + ")" * n + " = = 3\n",
 }
-DEEP = {"nested-sequence-patterns", "nested-group-patterns", "nested-class-patterns", "nested-mapping-patterns", "invalid-nested-sequence-patterns", "nested-parens", "nested-lists", "nested-calls", "nested-subscripts", "nested-dicts", "nested-lambdas", "nested-comprehensions", "nested-ifexp", "nested-subprocs", "nested-blocks", "invalid-unclosed-parens", "invalid-nested-parens-junk", "invalid-nested-blocks", "invalid-nested-calls", "invalid-subproc"}
+DEEP = {"nested-sequence-patterns", "nested-group-patterns", "nested-class-patterns", "nested-mapping-patterns", "invalid-nested-sequence-patterns", "nested-parens", "nested-lists", "nested-calls", "nested-subscripts", "nested-dicts", "nested-lambdas", "nested-comprehensions", "nested-ifexp", "nested-subprocs", "nested-blocks", "invalid-unclosed-parens", "invalid-nested-parens-junk", "invalid-nested-blocks", "invalid-nested-calls", "invalid-subproc", "invalid-subproc-mismatch", "invalid-subproc-mismatch-mixed", "invalid-subproc-unclosed"}
 KNOWN = {
     "nested-pattern-sequence": "KF-C18-nested-sequence-patterns",
 }
 
 
 def sizes_for(name, tier):
+    if name.startswith("invalid-subproc-mismatch"):
+        return [10, 20, 40] if tier == "quick" else [10, 20, 40, 80]
     if name in DEEP:
         if "pattern" in name:
             return [3, 6, 9] if tier == "quick" else [3, 6, 9, 12]
@@ -188,4 +193,7 @@ def run(rep, tier, pool, variants=("shipped",)):
 
 
 def classify(name, v):
+    # quadratic (not worse) on nested subprocess openers whose innermost closer does not match: see known_findings.json
+    if name in ("invalid-subproc-mismatch", "invalid-subproc-mismatch-mixed") and v["exponent"] <= 2.2:
+        return "KF-C18-subproc-group-rescan"
     return None
